@@ -139,7 +139,10 @@ func genSelCase(r *rand.Rand, gi int) selCase {
 			case 4:
 				t = h.End + int64(1+r.Intn(20000))
 			case 5:
-				t = h.Start // the left edge itself: probe
+				t = h.Start + 2
+				if r.Intn(4) == 0 {
+					t = h.Start // the left edge itself: probe
+				}
 			default:
 				t = h.Start + 1 + r.Int63n(h.End-h.Start)
 			}
@@ -385,7 +388,7 @@ func childSelect(c *run.Ctx, cfg childCfg) {
 			map[bool]string{true: "lt", false: "ge"}[h.Range < h.Step], sc.Cluster)
 		c.BeginCase(gi, map[string]any{"monitor": "select", "case": sc})
 		c.Case(key)
-		if gi < 3 {
+		if gi < 1 {
 			c.Sample(map[string]any{"monitor": "select", "hints": h, "matchers": matchersString(sc.Matchers), "series": len(sc.Series)})
 		}
 		out, sqls, err := runSelect(&sc, reg, sess, &curDB, &und)
